@@ -55,6 +55,7 @@ def make_harness(shapes, method_sets):
         methods = METHOD_SETS[mset]
         root = build(recipe)
         strict = e.bool("strict")
+        inherited_base = [False]
         actions: dict[int, str] = {}
         produced: dict[int, Any] = {}
         called: dict[int, str] = {}
@@ -102,7 +103,21 @@ def make_harness(shapes, method_sets):
             return orig_generic(self, node)
 
         ns["generic_visit"] = generic
-        V = type("HarnessVisitor", (ASTTransformVisitor,), ns)
+        # the visitor may be derived from another visitor class that was used before it
+        derived = e.pick(["plain", "derived-from-a-used-visitor"], "visitor_class")
+        if derived == "plain":
+            V = type("HarnessVisitor", (ASTTransformVisitor,), ns)
+        else:
+            def base_method(self, node):
+                return node
+
+            Parent = type("ParentVisitor", (ASTTransformVisitor,), {"visit_VBase": base_method, "strict": strict})
+            for shape_ in (R("VLeaf"), R("VSubLeaf"), R("VMany", items=(R("VLeaf"),)), R("VReq", child=R("VStr2"))):
+                Parent().transform(build(shape_))  # the parent visitor dispatches for every class first
+            V = type("HarnessVisitor", (Parent,), ns)
+            if "VBase" not in methods:
+                # inherited from the parent: nodes without a closer method reach visit_VBase ("same")
+                inherited_base[0] = True
         # ---- snapshot of the input
         inputs: dict[int, Any] = {}
 
@@ -122,16 +137,19 @@ def make_harness(shapes, method_sets):
         except Exception as ex:  # noqa: BLE001
             result, raised = None, f"{type(ex).__name__}: {ex}"
         st = True if strict else False
-        scenario: dict[str, Any] = {"tree": describe(recipe), "methods_on": mset, "strict": st}
+        scenario: dict[str, Any] = {"tree": describe(recipe), "methods_on": mset, "strict": st, "visitor_class": derived}
 
         # ---- reference
         dispatched: dict[int, str | None] = {}
 
         def ref(r, n):
-            meth = _dispatch(n, methods, st)
+            meth = _dispatch(n, methods + (["VBase"] if inherited_base[0] else []), st)
             dispatched[id(n)] = meth
             if meth is None:
                 return ref_generic(r, n)
+            if meth == "VBase" and inherited_base[0]:
+                dispatched[id(n)] = "__parent_VBase__"
+                return ("same", n)
             a = act(n)
             if a == "descend":
                 return ref_generic(r, n)
@@ -178,6 +196,11 @@ def make_harness(shapes, method_sets):
             return scenario
         # ---- dispatch
         for k, meth in dispatched.items():
+            if meth == "__parent_VBase__":
+                if k in called or k in generic_calls:
+                    scenario.update(node=type(inputs[k][0]).__name__, expected_method="visit_VBase of the parent visitor", called=called.get(k), generic_called=k in generic_calls)
+                    e.fail("dispatch-wrong", scenario=scenario)
+                continue
             got = called.get(k)
             if meth != got or ((meth is None) != (k in generic_calls and got is None)):
                 scenario.update(node=type(inputs[k][0]).__name__, expected_method=meth, called=got, generic_called=k in generic_calls)
@@ -242,7 +265,7 @@ def make_harness(shapes, method_sets):
                         check(g, r, where + f"/{f.name}[{i}]")
 
         check(result, expected, "<root>")
-        e.distinct((sno, mset, st, tuple(scenario["actions"])))
+        e.distinct((sno, mset, st, derived, tuple(scenario["actions"])))
         return scenario
 
     return harness
